@@ -19,10 +19,10 @@ Definition raw_wf (k : keys) (r : raw) : bool :=
   (List.length (fst (fst r)) =? List.length (fst k))%nat && (List.length (snd (fst r)) =? List.length (snd k))%nat &&
   (List.length (snd r) =? List.length (fst k))%nat.
 
-(** blocked accounts (BankKeeper.BlockedAddr), keys, initial snapshot, then (op, accepted?, snapshot after) *)
-Definition case : Type := list string * keys * raw * list (op * bool * raw).
+(** blocked accounts (BankKeeper.BlockedAddr), keys, initial snapshot, then per tx (messages, accepted?, snapshot after) *)
+Definition case : Type := list string * keys * raw * list (list op * bool * raw).
 
-Definition trace_of (k : keys) (t : list (op * bool * raw)) : list (op * bool * snap) :=
+Definition trace_of (k : keys) (t : list (list op * bool * raw)) : list (list op * bool * snap) :=
   map (fun e => (fst (fst e), snd (fst e), mk_snap k (snd e))) t.
 
 Definition case_wf (c : case) : bool :=
@@ -40,11 +40,11 @@ Definition snap_of (s : st) (keys : snap) : snap :=
      sn_bal := map (fun e : string * string * Z => (fst (fst e), snd (fst e), bal s (fst (fst e)) (snd (fst e)))) (sn_bal keys);
      sn_admin := map (fun e : string * option string => (fst e, admins s (fst e))) (sn_admin keys) |}.
 
-Fixpoint trace_mismatch (blocked : list string) (s : st) (t : list (op * bool * snap)) : bool :=
+Fixpoint trace_mismatch (blocked : list string) (s : st) (t : list (list op * bool * snap)) : bool :=
   match t with
   | [] => false
   | (o, ok, cur) :: r =>
-      let '(s', mok) := deliver blocked s o in
+      let '(s', mok) := deliver_tx blocked s o in
       negb (Bool.eqb mok ok) || negb (snap_eqb (snap_of s' cur) cur) || trace_mismatch blocked s' r
   end.
 
